@@ -136,6 +136,7 @@ static RunResult run_c17(const RunSpec &spec) {
             // half of the documents are damaged (error paths of the parser under allocation failure)
             int ncor = (spec.mods.simple.count(0) || pr.chance(1, 2)) ? 0 : (int) pr.range(1, 3);
             for (int i = 0; i < ncor && !bytes.empty(); ++i) {
+                if (pr.chance(1, 2)) { doc_corrupt(bytes, pr, NULL); continue; }     // the corruptions of the C03 workload (incl. whole defective constructs)
                 size_t at = pr.below(bytes.size()); unsigned kind = (unsigned) pr.below(9); if (kind >= 5) kind = kind - 5; if (kind == 3 && pr.chance(2, 3)) kind = 1;   // truncation is rare: it leaves little to parse
                 static const char INS[] = "'\";[]{}:_#$ \n\\";
                 if (kind == 0) bytes.erase(bytes.begin() + (long) at);
